@@ -343,6 +343,11 @@ func BridgeSpec() Spec {
 		// the same contract in ANOTHER class: A becomes an issuer of C02, then receives for contract 1 there
 		fix(Msg("UpdateClassIssuers(A2,C02,+A)", &basetypes.MsgUpdateClassIssuers{Admin: A2.String(), ClassId: "C02", AddIssuers: []string{A.String()}})),
 		fix(BridgeReceive(A, "C02", "VCS-1", C, "1.25", date(2021, 1, 1), date(2022, 1, 1), tx(6, "polygon", Contract1))),
+		// a capitalised source on the route that CREATES the batch (new contract), to be repeated on the route that mints
+		// into it (the identical receipt again), and the same pair through CreateBatch / MintBatchCredits directly
+		fix(BridgeReceive(A, "C01", "VCS-3", C, "1", date(2021, 3, 1), date(2022, 1, 1), tx(10, "Polygon", Contract3))),
+		fix(CreateBatch(A, "C01-001", date(2022, 2, 1), date(2023, 1, 1), true, tx(11, "Polygon", ""), Iss(B, "1", "0"))),
+		fix(Mint(A, B1, C, "1", "0", tx(11, "Polygon", ""))),
 		fix(Bridge(B, "polygon", Cr(B3, "1"))),
 		fix(Bridge(B, "polygon", Cr(B3, "0.5"), Cr(B3, Eps))),
 		fix(Bridge(C, "Polygon", Cr(B3, "1"))),
